@@ -136,6 +136,9 @@ func (u *Unit) stubFunc(st *State, instr ssa.Instruction, full string, args []Va
 		u.event(st, "WaitGroup.Wait", args)
 		key := u.wgKey(st, args[0])
 		st.cnt["flag!waited:"+key] = True
+		u.note("M4: sync.WaitGroup.Wait returns only when the counter is zero; Add happens-before a Wait called after the adder returned")
+		u.declFun("wgWaited", "(Int) Bool")
+		st.assume(app(SBool, "wgWaited", u.lower(st, args[0], cc.Args[0].Type())))
 		return one(st, nil), true
 	case "sync/atomic.CompareAndSwapUint32":
 		u.note("stub atomic.CompareAndSwapUint32: atomic compare-and-swap (M5)")
@@ -445,8 +448,23 @@ func (u *Unit) checkSectionAsserts(st *State, instr ssa.Instruction, name string
 	if fs == nil {
 		return
 	}
+	sited := ""
+	if instr != nil {
+		m := "W"
+		if cc, ok := instr.(*ssa.Call); ok {
+			if sf := cc.Call.StaticCallee(); sf != nil && strings.HasSuffix(sf.Name(), "RUnlock") {
+				m = "R"
+			}
+		}
+		if df, ok := instr.(*ssa.Defer); ok {
+			if sf := df.Call.StaticCallee(); sf != nil && strings.HasSuffix(sf.Name(), "RUnlock") {
+				m = "R"
+			}
+		}
+		sited = fmt.Sprintf("unlock:%s#%s%d", name, m, u.siteOrdinal(instr))
+	}
 	for _, c := range fs.Asserts {
-		if c.Mark != "unlock:"+name {
+		if c.Mark != "unlock:"+name && c.Mark != sited {
 			continue
 		}
 		env := u.newEnv(st)
